@@ -77,10 +77,10 @@ static void c04_run(vf_case *c)
     int n = rng_bool(r, 0.15) ? rng_int(r, 1, 3) : rng_int(r, 2, rng_bool(r, 0.8) ? 14 : 40);
     if (kind == K_HALL && n < 3) kind = K_EMPTY_COL;
     int ndef; vf_mat A; build(r, P, n, kind, valclass, &ndef, &A, note, sizeof note);
-    int route = rng_int(r, 0, 9);               /* 0-4 gstrf (exactness witness), 5-6 gssv, 7-9 gssvx */
-    const char *rn = route <= 4 ? "gstrf" : route <= 6 ? "gssv" : "gssvx";
+    int route = rng_int(r, 0, 11);              /* 0-4 gstrf (exactness witness), 5-6 gssv, 7-9 gssvx, 10-11 gssvx refactorization with remembered pivots */
+    const char *rn = route <= 4 ? "gstrf" : route <= 6 ? "gssv" : route <= 9 ? "gssvx" : "gssvx-refactor";
     run_opts o; gen_run_opts(r, &o, route >= 5);
-    static const double us[] = { 1.0, 1.0, 0.5, 0.25, 0.1, 1e-3 }; o.opt.DiagPivotThresh = us[rng_int(r, 0, 5)];   /* 1, .5, .25 keep the threshold product exact */
+    static const double us[] = { 1.0, 1.0, 0.5, 0.25, 0.1, 1e-3, 0.0 }; o.opt.DiagPivotThresh = us[rng_int(r, 0, route >= 10 ? 6 : 5)];   /* 1, .5, .25 keep the threshold product exact; 0 is legal (documented range [0,1]) */
     gen_tuning(r, rng_bool(r, 0.85));
     int sr = sprank(&A); int immune = has_empty_line(&A); int structsing = sr < n;
     vf_desc(c, "route=%s %dx%d %s/%s (%s) sprank=%d; ", rn, n, n, kind_names[kind], valclass ? "smallint" : "pow2", note, sr);
@@ -120,6 +120,40 @@ static void c04_run(vf_case *c)
         }
         if (info >= 0 && info <= n) { Destroy_SuperNode_Matrix(&L); Destroy_CompCol_Matrix(&U); }
         StatFree(&stat); free_sparse(&SA); free_dense(&SB); free(pc); free(pr); free(B0); snap_free(&b0);
+    } else if (route >= 10) {
+        /* factor a companion matrix with the same pattern first, then refactor THIS matrix reusing ordering, row pivots and storage */
+        int nrhs = rng_int(r, 1, 2);
+        ldc *B0 = malloc(sizeof(ldc) * (size_t)n * nrhs); for (int k = 0; k < n * nrhs; k++) B0[k] = P->round((2 * rng_unif(r) - 1) + (P->cplx ? (2 * rng_unif(r) - 1) * I : 0));
+        vf_mat A1; mat_copy(&A1, &A); for (int_t k = 0; k < A1.nnz; k++) A1.v[k] = P->round(valclass ? intval(r, P) : pow2val(r, P));
+        xdrv D; xdrv_init(&D, P, &A1, o.rowmajor, nrhs, o.ldpad, 0, B0, 0);
+        superlu_options_t xo = o.opt; xo.Fact = DOFACT; xo.PrintStat = NO; xo.Equil = NO; xo.IterRefine = NOREFINE;
+        if (xo.ColPerm == MY_PERMC) memcpy(D.perm_c, mypc, sizeof(int) * (size_t)n);
+        xdrv_call(&D, &xo);
+        if (D.info == 0 || D.info == n + 1) {
+            vf_tag(c, "refactor=done");
+            NCformat *st = D.A.Store; vf_mat S; if (o.rowmajor) mat_transpose(&S, &A); else S = A;
+            for (int_t k = 0; k < A.nnz; k++) P->set(st->nzval, (size_t)k, S.v[k]);     /* same pattern, this case's values (storage order of the object) */
+            if (o.rowmajor) mat_free(&S);
+            DNformat *bs = D.B.Store; for (int j = 0; j < nrhs; j++) for (int i = 0; i < n; i++) P->set(bs->nzval, (size_t)j * bs->lda + i, B0[(size_t)j * n + i]);
+            vf_snap b0, x0; snap_dense(P, &D.B, &b0); snap_dense(P, &D.X, &x0);
+            xo.Fact = SamePattern_SameRowPerm;
+            xdrv_call(&D, &xo); info = D.info;
+            vf_mat AT; const vf_mat *F = &A; if (o.rowmajor) { mat_transpose(&AT, &A); F = &AT; }
+            if (info > 0 && info <= n) {
+                vf_snap b1, x1; snap_dense(P, &D.B, &b1); snap_dense(P, &D.X, &x1);
+                if (!snap_same(&b0, &b1)) vf_viol(c, "B-modified-on-singular", "gssvx refactorization: info=%lld (Equil=NO) but B was modified", (long long)info);
+                if (!snap_same(&x0, &x1)) vf_viol(c, "solve-attempted", "gssvx refactorization: info=%lld but X was written", (long long)info);
+                snap_free(&b1); snap_free(&x1);
+                judge_singular(c, P, F, D.perm_r, D.perm_c, &D.L, &D.U, info, "gssvx/SameRowPerm");
+            } else if (info == 0 || info == n + 1) {
+                ldc *Ld = malloc(sizeof(ldc) * (size_t)n * n), *Ud = malloc(sizeof(ldc) * (size_t)n * n); char why[200];
+                if (!structure_ok(P, &D.L, &D.U, n, n, 0, why, sizeof why)) { expand_LU(P, &D.L, &D.U, n, n, Ld, Ud); if (check_udiag(P, Ud, n, why, sizeof why)) vf_viol(c, "success-with-zero-pivot", "gssvx/SameRowPerm (u=%g): %s", xo.DiagPivotThresh, why); }
+                free(Ld); free(Ud);
+            }
+            if (o.rowmajor) mat_free(&AT);
+            snap_free(&b0); snap_free(&x0);
+        } else { vf_tag(c, "refactor=companion-singular"); info = D.info > 0 && D.info <= n ? -12345 : D.info; }
+        xdrv_free(&D); free(B0); mat_free(&A1);
     } else {
         int nrhs = rng_int(r, 1, 3);
         ldc *B0 = malloc(sizeof(ldc) * (size_t)n * nrhs); for (int k = 0; k < n * nrhs; k++) B0[k] = P->round((2 * rng_unif(r) - 1) + (P->cplx ? (2 * rng_unif(r) - 1) * I : 0));
@@ -141,6 +175,7 @@ static void c04_run(vf_case *c)
     }
     /* clauses (c)/(d): the verdict itself */
     int reported = info > 0 && info <= n;
+    if (info == -12345) { vf_tag(c, "decided-by=none"); goto finish; }     /* the companion factorization was itself singular: nothing to refactor */
     if (info < 0 || info > n + 1) vf_viol(c, "info-unexpected", "%s returned info=%lld on a valid call", rn, (long long)info);
     const char *basis = "none";
     if (exactly_singular && immune) basis = "immune";           /* empty row/column: no rounding can create a candidate */
@@ -154,6 +189,7 @@ static void c04_run(vf_case *c)
     vf_tag(c, "decided-by=%s", basis); vf_tag(c, "info=%s", reported ? "singular" : info == 0 ? "0" : "other");
     if (reported) { c->counters[0]++; c->nontrivial = 1; } if (exact_run) c->counters[1]++;
     vf_sig_u64(c, (uint64_t)reported);
+finish:
     free(mypc); mat_free(&A);
     vf_check_ledger(c, "after singular lifecycle");
 }
